@@ -137,29 +137,41 @@ def _run_cvc5(smt2, timeout_s):
         os.unlink(path)
 
 
+# Failure-path budget.  On the unchanged tree no obligation ends `unknown`, so the full ladder (first attempt, four retry seeds, cvc5)
+# only ever costs time when it SUCCEEDS.  On a changed tree many obligations of the changed function are undecidable at once, and
+# paying the full ladder for each (~13 min under load) made a check run for hours.  Per worker process: the first FULL_LADDERS
+# obligations that end undecided get the whole ladder, the next ones two retry seeds and no cvc5, and after FAST_AFTER undecided
+# obligations a worker only makes the first attempt, with a third of the budget.  Verdicts are unaffected: undecided stays undecided.
+FULL_LADDERS = int(os.environ.get("PYVC_FULL_LADDERS", "2"))
+FAST_AFTER = int(os.environ.get("PYVC_FAST_AFTER", "5"))
+_UNDECIDED_HERE = [0]
+
+
 def _work(item):
     name, smt2, second = item
     t_pre = 0.0
+    fails = _UNDECIDED_HERE[0]
+    first_budget = Z3_TIMEOUT_MS if fails < FAST_AFTER else max(3000, Z3_TIMEOUT_MS // 3)
     if isinstance(smt2, tuple):
         # gate-filtered query first: it may only prove; anything else falls through to the full query
-        r0, t_pre, info0 = _run_z3(smt2[0], Z3_TIMEOUT_MS)
+        r0, t_pre, info0 = _run_z3(smt2[0], first_budget)
         if r0 == "unsat":
             return name, "unsat", "z3(gate-filtered hypotheses)", t_pre, "", None
         smt2 = smt2[1]
-    r, t, info = _run_z3(smt2, Z3_TIMEOUT_MS)
+    r, t, info = _run_z3(smt2, first_budget)
     t += t_pre
     backend = "z3"
     agree = None
-    if r in ("unknown", "error"):
-        # quantifier instantiation is sensitive to incidental naming: before giving up, two more attempts with other random seeds
+    if r in ("unknown", "error") and fails < FAST_AFTER:
+        # quantifier instantiation is sensitive to incidental naming: before giving up, more attempts with other random seeds
         # (an obligation that normally takes a fraction of a second must not turn a check undecided because one run diverged)
-        for seed in RETRY_SEEDS:
+        for seed in (RETRY_SEEDS if fails < FULL_LADDERS else RETRY_SEEDS[:2]):
             r1, t1, info1 = _run_z3(smt2, Z3_RETRY_TIMEOUT_MS, seed)
             t += t1
             if r1 in ("unsat", "sat"):
                 r, info, backend = r1, info1, f"z3(seed={seed})"
                 break
-    if r in ("unknown", "error"):
+    if r in ("unknown", "error") and fails < FULL_LADDERS:
         r2, t2, info2 = _run_cvc5(smt2, CVC5_TIMEOUT_S)
         if r2 == "unsat":
             # cvc5 may answer unsat where z3 gives up; sat from cvc5 on quantified input is not used as a model
@@ -171,6 +183,10 @@ def _work(item):
         r2, t2, _ = _run_cvc5(smt2, CVC5_TIMEOUT_S)
         agree = r2
         t += t2
+    if r in ("unknown", "error"):
+        _UNDECIDED_HERE[0] += 1
+        if fails >= FULL_LADDERS:
+            info = (info or "") + f" | reduced ladder (undecided obligation no. {fails + 1} of this worker)"
     return name, r, backend, t, info, agree
 
 
